@@ -209,9 +209,9 @@ func (g gen) node(base int, o nodeOpts) *ctypes.NodeResourceInfo {
 		capm[id] = c
 		u := 0
 		switch x := g.intn(100); {
-		case x < 45:
+		case x < 55:
 			u = 0
-		case x < 60:
+		case x < 65:
 			u = c
 		case x < 75 && c >= b:
 			u = b * g.intn(c/b+1)
@@ -229,13 +229,13 @@ func (g gen) node(base int, o nodeOpts) *ctypes.NodeResourceInfo {
 	mem := int64(g.pick(0, 1000, 1000, 4096, 8000, 1<<30))
 	var umem int64
 	if mem > 0 {
-		switch g.intn(4) {
-		case 0:
+		switch g.intn(6) {
+		case 0, 1:
 			umem = 0
-		case 1:
+		case 2:
 			umem = mem - int64(g.intn(int(min64(mem, 400))+1))
 		default:
-			umem = int64(g.r.Rng.Int63n(mem + 1))
+			umem = int64(g.r.Rng.Int63n(mem/2 + 1))
 		}
 	}
 	capR := &ctypes.NodeResource{CPU: float64(n), CPUMap: capm, Memory: mem, NUMAMemory: ctypes.NUMAMemory{}, NUMA: ctypes.NUMA{}}
@@ -320,6 +320,17 @@ func min64(a, b int64) int64 {
 	return b
 }
 
+// freeCores counts the cores with at least one full share free.
+func freeCores(info *ctypes.NodeResourceInfo, base int) int {
+	n := 0
+	for id, c := range info.Capacity.CPUMap {
+		if base > 0 && c-info.Usage.CPUMap[id] >= base {
+			n++
+		}
+	}
+	return n
+}
+
 // request: returns cpu, k (decimal numerator or -1)
 func (g gen) cpuRequest(base, cores int) (float64, int64) {
 	b := base
@@ -330,10 +341,20 @@ func (g gen) cpuRequest(base, cores int) (float64, int64) {
 	switch x := g.intn(100); {
 	case x < 25: // whole cores
 		k = b * (1 + g.intn(3))
+		if cores >= 1 && k > cores*b {
+			k = cores * b
+		}
 	case x < 50: // fragment only
 		k = 1 + g.intn(b)
 	case x < 85: // mixed
-		k = 1 + g.intn((cores+1)*b)
+		m := cores
+		if m > 3 && g.chance(0.8) {
+			m = 3
+		}
+		if m < 0 {
+			m = 0
+		}
+		k = 1 + g.intn(m*b+b/2+1)
 	case x < 93: // classic bad decimals (scaled to the base)
 		k = g.pick(29, 57, 115, 58, 113, 229, 1001, 7)
 	default:
@@ -357,14 +378,17 @@ func (g gen) memRequest(info *ctypes.NodeResourceInfo) int64 {
 	switch x := g.intn(100); {
 	case x < 35:
 		return 0
-	case x < 60:
-		return 1 + int64(g.intn(200))
-	case x < 80 && free > 0:
+	case x < 65 && free > 8:
+		return 1 + g.r.Rng.Int63n(free/8)
+	case x < 85 && free > 0:
 		return free/int64(1+g.intn(6)) + int64(g.intn(3))
-	case x < 90 && free > 0:
+	case x < 91 && free > 0:
 		return free + int64(g.intn(2))
 	}
-	return int64(g.pick(1, 100, 500, 1024))
+	if free > 0 {
+		return 1 + g.r.Rng.Int63n(free)
+	}
+	return int64(g.pick(0, 1, 10))
 }
 
 func (g gen) origin(info *ctypes.NodeResourceInfo, base int) ctypes.CPUMap {
@@ -610,7 +634,11 @@ func runPlans(t *testing.T) {
 		base := g.pick(100, 100, 100, 100, 10, 1000, 1, 7)
 		malformed := i%10 == 9
 		info := g.node(base, nodeOpts{maxCores: maxCores, malformed: malformed})
-		cpu, k := g.cpuRequest(base, len(info.Capacity.CPUMap))
+		nc := len(info.Capacity.CPUMap)
+		if g.chance(0.7) {
+			nc = freeCores(info, base)
+		}
+		cpu, k := g.cpuRequest(base, nc)
 		c := planCase{info: info, base: base, cpu: cpu, k: k, mem: g.memRequest(info), origin: g.origin(info, base)}
 		c.maxFrag = g.pick(-1, -1, -1, -1, -1, 1, 2, 3, len(info.Capacity.CPUMap))
 		if base == 1000 && len(info.Capacity.CPUMap) > 8 {
@@ -758,6 +786,26 @@ func runDeploy(t *testing.T) {
 			nc, ok := resp.NodeDeployCapacityMap[name]
 			return capObs{present: ok, cap: nc, total: resp.Total}
 		})
+		if c.count < 0 {
+			// count relative to the capacity the plugin just reported: mostly feasible, sometimes one too many
+			capN := 0
+			if !co.timeout && co.panicMsg == "" && co.val.err == nil && co.val.cap != nil {
+				capN = co.val.cap.Capacity
+			}
+			if capN > 6 {
+				capN = 6
+			}
+			switch x := g.intn(100); {
+			case capN >= 1 && x < 75:
+				c.count = 1 + g.intn(capN)
+			case x < 90:
+				c.count = capN + 1
+			case x < 95:
+				c.count = 0
+			default:
+				c.count = 1 + g.intn(6)
+			}
+		}
 		do := guarded(func() deployObs {
 			resp, err := pl.CalculateDeploy(ctx, name, c.count, c.raw)
 			if err != nil {
@@ -869,7 +917,11 @@ func runDeploy(t *testing.T) {
 		cf := cfgs[g.intn(len(cfgs))]
 		base, maxShare := cf[0], cf[1]
 		info := g.node(base, nodeOpts{maxCores: 10})
-		cpu, k := g.cpuRequest(base, len(info.Capacity.CPUMap))
+		nc := len(info.Capacity.CPUMap)
+		if g.chance(0.7) {
+			nc = freeCores(info, base)
+		}
+		cpu, k := g.cpuRequest(base, nc)
 		mem := g.memRequest(info)
 		raw := map[string]any{}
 		bindReq := g.chance(0.75)
@@ -903,15 +955,14 @@ func runDeploy(t *testing.T) {
 			raw["cpu-request"] = -cpu
 			k = -1
 		}
-		count := g.pick(1, 1, 2, 2, 3, 4, 6, 0)
-		emit(deployCase{info: info, base: base, maxShare: maxShare, count: count, raw: raw, k: k, label: "random"})
+		emit(deployCase{info: info, base: base, maxShare: maxShare, count: -1, raw: raw, k: k, label: "random"})
 	}
 	for _, c := range last {
 		if timeouts < 3 {
 			emit(c)
 		}
 	}
-	r.Finish("corpus, then random Validate-accepted nodes stored through Plugin.SetNodeResourceInfo on embedded etcd; 75% cpu-bind requests on the decimal grid, memory request none/small/near free/above free, limits above and below requests, a few invalid requests; share base / max share from {100/-1, 100/2, 100/1, 10/-1, 1000/3, 1/-1, 7/-1}; count 0-6. Each case: GetNodesDeployCapacity, CalculateDeploy, SetNodeResourceUsage(workloads, incr), GetNodeResourceInfo. Non-trivial = deploy succeeded with count > 0")
+	r.Finish("corpus, then random Validate-accepted nodes stored through Plugin.SetNodeResourceInfo on embedded etcd; 75% cpu-bind requests on the decimal grid, memory request none/small/near free/above free, limits above and below requests, a few invalid requests; share base / max share from {100/-1, 100/2, 100/1, 10/-1, 1000/3, 1/-1, 7/-1}; count chosen after GetNodesDeployCapacity (75% within the reported capacity, 15% one above, else 0 or random). Each case: GetNodesDeployCapacity, CalculateDeploy, SetNodeResourceUsage(workloads, incr), GetNodeResourceInfo. Non-trivial = deploy succeeded with count > 0")
 }
 
 // ---------- stream "realloc": Plugin.CalculateRealloc ----------
